@@ -136,6 +136,8 @@ def oracle(c, obs):
             for b, cmp in (("min", lambda x: d < x), ("max", lambda x: d > x)):
                 if f.get(b, "-") != "-" and cmp(float(f[b][:-1])):
                     return "the default value %r of %s lies outside its declared %s %s" % (d, c["line"], b, f[b])
+        if "pr" in f.get("perms", "").split(",") and f.get("default", "none") == "none":
+            return "constructor %s yields a characteristic that can be read but has no value (its typed getter panics, it is served without a value)" % c["line"]
         if not f.get("type") or not f.get("format") or not f.get("perms"):
             return "constructor %s yields an object without type / format / permissions: %s" % (c["line"], obs[:80])
     if c["kind"] == "svc":
